@@ -694,7 +694,15 @@ class Lib:
         if meth == "dot":
             return A.dot(a, _arr(args[0], interp))
         if meth == "any":
-            return sv.cmp(">", A.reduce_sum(A.astype(a, "bool") if a.dtype != "bool" else a, axis), 0)
+            ab = A.astype(a, "bool") if a.dtype != "bool" else a
+            tot = A.reduce_sum(ab, axis)
+            res = sv.cmp(">", tot, 0)
+            if axis is None and isinstance(res, SV) and not all(A.dim_conc(d) for d in a.shape):
+                # sound instance of "a sum of 0/1 terms is at least any one of them" at the first element:
+                # (every dim >= 1 and a[0,..,0] is true)  =>  count > 0
+                first = ab.get(tuple(0 for _ in a.shape))
+                cur().assume(sv.implies(sv.and_(first, *[sv.cmp(">=", d, 1) for d in a.shape]), res))
+            return res
         if meth == "all":
             nb = A.unop(sv.not_, A.astype(a, "bool") if a.dtype != "bool" else a, dtype="bool")
             return sv.cmp("==", A.reduce_sum(nb, axis), 0)
